@@ -38,7 +38,7 @@ Definition subs_cfg : config :=
    the repair startRunnable stored the initial state silently and the subscriber never learnt the
    new entry; now startRunnable broadcasts the map. *)
 Definition subs_sched : list label :=
-  [LLaunch 0; LRunStore 0; LRunCall 0; LMonSub 0; LMonRecv 0; LSubscribe 7; LSubDo 7; LSubRecv 7 [Some 0; None];
+  [LRunEnter; LRunEntered; LLaunch 0; LRunStore 0; LRunCall 0; LMonSub 0; LMonRecv 0; LSubscribe 7; LSubDo 7; LSubRecv 7 [Some 0; None];
    LPoll 0 true; LGateDecide 0; LLaunch 1; LRunStore 1; LRunCall 1; LMonSub 1; LMonRecv 1; LPoll 1 true; LGateDecide 1;
    LQuiet].
 
@@ -167,6 +167,16 @@ Proof.
   - left. exists j, l. unfold mon_at, smap_at in *. rewrite Eo, Em. split; [|exact H2].
     rewrite get_upd_other; [exact H1|]. intros ->. exact (Hi l H1).
   - right. unfold last_sent in *. now rewrite Es, Em, Eh.
+Qed.
+
+(* Run() creates the monitors: before, there was none, so none owed a broadcast *)
+Lemma Track_start s s' c0 :
+  subs s' = subs s -> smap s' = smap s -> hist s' = hist s ->
+  (forall i, mon_at s i = MoAbsent) -> Track s c0 -> Track s' c0.
+Proof.
+  intros Es Em Eh Ha [Tb Tl]. constructor; [now rewrite Es|].
+  destruct Tl as [(j & l & H1 & H2)|Tl]; [rewrite Ha in H1; discriminate H1|].
+  right. unfold last_sent in *. now rewrite Es, Em, Eh.
 Qed.
 
 (* a monitor changes the map: it now owes a broadcast *)
@@ -298,6 +308,8 @@ Proof.
   destruct l; cbn [step0] in H; unfold start_shutdown, store_state in H;
     step_cases H; inversion H; subst; clear H.
   all: try (apply (Track_frame s); [reflexivity|reflexivity|reflexivity|hist_nr|exact T]; fail).
+  all: try (apply (Track_start s); [reflexivity|reflexivity|reflexivity| |exact T];
+            apply (InvAbs_reachable _ _ Hre); right; assumption).
   (* startRunnable / Shutdown / reload manager store a state: by assumption the map does not change *)
   all: cbn [ok_label] in Hok.
   all: try (match goal with E : (_ <? nrun _) && _ = true |- _ =>
@@ -412,4 +424,34 @@ Proof.
   intros Hre0 Hdo Hrun Hok Q Hb Hbuf.
   pose proof (sup_c06_subscriber _ _ _ _ _ _ Hre0 Hdo Hrun Hok Q) as X.
   unfold last_sent in X. now rewrite Hb, Hbuf in X.
+Qed.
+
+(* C06 ("closed exactly once"): the progress half - a subscription whose context has ended DOES get closed.  The
+   closer goroutine's step (LSubUnreg: unsubscribe, then close) is enabled as soon as the subscription has been
+   set up and cancelled; if the context ended before SubscribeStateChanges had run, the set-up step is enabled
+   first.  Hence in a quiescent state every cancelled subscription is closed.  Together with close_once (at most
+   once, only after the context ended) and InvSubs (a closed channel is never a broadcast target): exactly once. *)
+Theorem sup_c06_cancelled_gets_closed c s c0 b :
+  find_sub c0 (subs s) = Some b -> sub_cancelled b = true -> sub_closed b = false ->
+  (sub_started b = true -> step c s (LSubUnreg c0) <> None) /\
+  (sub_started b = false -> step c s (LSubDo c0) <> None).
+Proof.
+  intros Hf Hc Hx. unfold step. cbn [step0]. rewrite Hf. split; intros Hs; rewrite Hs.
+  - rewrite Hc, Hx. cbn. discriminate.
+  - discriminate.
+Qed.
+
+Theorem sup_c06_quiescent_closed c s c0 b :
+  quiescent c s = true -> find_sub c0 (subs s) = Some b -> sub_cancelled b = true -> sub_closed b = true.
+Proof.
+  intros Q Hf Hc. destruct (sub_closed b) eqn:Hx; [reflexivity|]. exfalso.
+  pose proof (find_sub_In _ _ _ Hf) as Hin. pose proof (find_sub_id _ _ _ Hf) as Hid.
+  destruct (sup_c06_cancelled_gets_closed c s c0 b Hf Hc Hx) as [A B].
+  destruct (sub_started b) eqn:Hs.
+  - assert (Hl : In (LSubUnreg c0) (taus_nt c s)).
+    { in_chain ltac:(apply in_map_iff; exists b; split; [now rewrite Hid|exact Hin]). }
+    pose proof (quiescent_taus _ _ _ Q Hl) as H. apply (A eq_refl). unfold step. exact H.
+  - assert (Hl : In (LSubDo c0) (taus_nt c s)).
+    { in_chain ltac:(apply in_map_iff; exists b; split; [now rewrite Hid|exact Hin]). }
+    pose proof (quiescent_taus _ _ _ Q Hl) as H. apply (B eq_refl). unfold step. exact H.
 Qed.
